@@ -27,7 +27,10 @@ RULE = ("2..12 distinct points with small integer coordinates (dim 1..3, float32
         "the attributes, fit_predict or predict; fit under test; second fit; warm start from est.centers_ of an earlier fit of the same "
         "estimator) and must be those of that fit's result_; after the fit under test the clustering they describe is judged by the "
         "property's clauses on its own. Wide feature vectors (48..100 features, float32/float64 with 12 fractional bits, euclidean) "
-        "through every entry point; k-medoids / k-hybrid there by the oracle only (irrational distances).")
+        "through every entry point; k-medoids / k-hybrid there by the oracle only (irrational distances). The triangle-inequality "
+        "shortcut on data obeying the triangle inequality (integer points under euclidean / manhattan, shortest-path closures of tables on "
+        "an index column or md.Trajectory), 7..14 frames, >= 3 centres, count or attained radius, cold or continued from 1..2 frames, "
+        "built so that a new centre takes frames away from a neighbouring cluster (cluster_common.gen_ti_steal).")
 SHARD = 60
 
 
@@ -45,6 +48,9 @@ def generate(rng, tier):
         cases.append(cc.gen_kcenters(rng) if r < 0.4 else cc.gen_kmedoids(rng) if r < 0.8 else cc.gen_hybrid(rng))
     cases += cc.gen_axis_streams(rng, ["kcenters", "kmedoids", "hybrid", "traj"], reps=1 if tier == "quick" else 6)
     cases += cc.gen_wide_stream(rng, reps=1 if tier == "quick" else 6)
+    # the shortcut on metric data with >= 3 centres where a new centre takes frames away from a neighbouring cluster
+    for _ in range(16 if tier == "quick" else 160):
+        cases.append(cc.gen_ti_steal(rng))
     return cases
 
 
@@ -80,7 +86,7 @@ def nontrivial(c, out):
 
 
 tags = cc.common_tags
-ESSENTIAL_TAGS = ["wide-features-kcenters-float32", "wide-features-kcenters-float64", "wide-features-kmedoids-float32", "wide-features-kmedoids-float64",
+ESSENTIAL_TAGS = ["ti-new-centre-takes-frames-of-neighbouring-cluster", "wide-features-kcenters-float32", "wide-features-kcenters-float64", "wide-features-kmedoids-float32", "wide-features-kmedoids-float64",
                   "wide-features-hybrid-float32", "wide-features-hybrid-float64", "init-estimator",
                   "estimator-read-attrs-then-refit", "estimator-read-fit_predict-then-refit", "estimator-read-predict-then-refit",
                   "tiny-scale-start-without-centres", "init-array", "init-list", "init-result", "warm-init-md-trajectory", "non-contiguous-data", "buffer-reusing-metric",
